@@ -164,7 +164,7 @@ ILL_FORMS = {
     "boolean": ["TRUE", "yes", "2"], "date": ["2001-13-01", "yesterday", "2001-02-30"], "dateTime": ["2001-01-01", "T12:00:00", "2001-01-01T25:00:00"],
     "time": ["25:00:00", "noon"], "duration": ["1Y", "P", "PT"], "hexBinary": ["0", "GG"], "base64Binary": ["!!!"], "gYear": ["abc"],
 }
-OTHER_DTS = [URIRef("http://example.org/dt#custom"), RDF.XMLLiteral, RDF.HTML, URIRef("urn:dt:x"), RDF.langString]
+OTHER_DTS = [URIRef("http://example.org/dt#custom"), URIRef("http://example.org/dt/other"), URIRef("urn:dt:y"), URIRef("urn:dt:x"), RDF.langString]
 
 
 def rand_literal(rng, classes=None, allow_ill=True, allow_nonnorm=True, str_pools=None):
